@@ -156,9 +156,12 @@ impl Builder {
     }
 
     pub fn small_bytes(&mut self, max: usize) -> Bytes {
-        let n = match self.rng.below(4) {
-            0 => 0,
-            1 => 1 + self.rng.usize_below(3),
+        let n = match self.rng.below(40) {
+            0..=9 => 0,
+            10..=19 => 1 + self.rng.usize_below(3),
+            // now and then a piece whose length does not fit one or two bytes (length-prefix handling)
+            20 => *self.rng.pick(&[255usize, 256, 257, 1000, 4096]),
+            21 => *self.rng.pick(&[65535usize, 65536, 65537, 70_000]),
             _ => self.rng.usize_below(max + 1),
         };
         self.bytes(n)
